@@ -1,7 +1,9 @@
 CONSTANTS Keys <- KeysC
           Known <- KnownC
+          Varies <- NoVaries
+          TableFollowsDialect = FALSE
           MaxOps = 2
 INIT CInit
 NEXT CNext
-INVARIANTS DisabledMeansOffOrUnset OverlayGivesDefaultsWhereUnset ExplicitWinsInMerge UnknownKeysHarmless ClearKeepsKeysDropsValues JsonRoundTrip MergeOrderIrrelevantForDisjoint
+INVARIANTS DisabledMeansOffOrUnset OverlayGivesDefaultsWhereUnset OverlayMatchesGroup ExplicitWinsInMerge UnknownKeysHarmless ClearKeepsKeysDropsValues JsonRoundTrip MergeOrderIrrelevantForDisjoint
 CHECK_DEADLOCK FALSE
